@@ -689,3 +689,54 @@ Section ConnectorFacts.
     rewrite N, HS in T. inversion T; subst. auto.
   Qed.
 End ConnectorFacts.
+
+(* ---------------------------------------------------------------- uri.rs: Host for http::Uri *)
+Lemma str_eqb_eq : forall a b, str_eqb a b = true <-> a = b.
+Proof.
+  induction a as [|x a IH]; intros [|y b]; cbn; split; intros H; try discriminate; try reflexivity.
+  - apply andb_true_iff in H. destruct H as [H1 H2]. apply Z.eqb_eq in H1. apply IH in H2. subst. reflexivity.
+  - inversion H; subst. apply andb_true_iff. split; [apply Z.eqb_refl | apply IH; reflexivity].
+Qed.
+
+Lemma scheme_keys_nodup : NoDup (map fst scheme_ports).
+Proof.
+  unfold scheme_ports. cbn [map fst].
+  repeat (constructor; [cbn; intros H; repeat (destruct H as [H|H]; [discriminate|]); exact H|]).
+  constructor.
+Qed.
+
+Lemma find_scheme_spec : forall (l : list (str * Z)) sc p, NoDup (map fst l) ->
+  (find (fun e => str_eqb (fst e) sc) l = Some (sc, p) <-> In (sc, p) l).
+Proof.
+  induction l as [|[k v] t IH]; intros sc p ND; cbn [find fst]; [split; [discriminate | intros []]|].
+  inversion ND as [|? ? NI ND']; subst. destruct (str_eqb k sc) eqn:E.
+  - apply str_eqb_eq in E. subst. split.
+    + intros H. inversion H; subst. left. reflexivity.
+    + intros [H|H]; [inversion H; reflexivity|]. exfalso. apply NI. apply (in_map fst) in H. exact H.
+  - rewrite IH by exact ND'. split; [intros H; right; exact H|].
+    intros [H|H]; [|exact H]. inversion H; subst. rewrite (proj2 (str_eqb_eq sc sc) eq_refl) in E. discriminate.
+Qed.
+
+Lemma find_scheme_key : forall (l : list (str * Z)) sc e, find (fun e => str_eqb (fst e) sc) l = Some e -> fst e = sc.
+Proof.
+  induction l as [|[k v] t IH]; intros sc e H; cbn [find fst] in H; [discriminate|].
+  destruct (str_eqb k sc) eqn:E; [inversion H; subst; apply str_eqb_eq, E | eapply IH, H].
+Qed.
+
+(* an explicit port wins; otherwise the port is exactly the table's entry for the scheme; no scheme or an unknown one: none *)
+Theorem uri_port_explicit : forall p sc, uri_port (Some p) sc = Some p.
+Proof. reflexivity. Qed.
+
+Theorem uri_port_default : forall sc p, uri_port None (Some sc) = Some p <-> In (sc, p) scheme_ports.
+Proof.
+  intros sc p. unfold uri_port, scheme_to_port. rewrite <- (find_scheme_spec scheme_ports sc p scheme_keys_nodup).
+  destruct (find (fun e => str_eqb (fst e) sc) scheme_ports) as [[k v]|] eqn:F.
+  - pose proof (find_scheme_key _ _ _ F) as K. cbn in K. subst k. split; intros H; inversion H; reflexivity.
+  - split; discriminate.
+Qed.
+
+Theorem uri_port_none : uri_port None None = None.
+Proof. reflexivity. Qed.
+
+Theorem uri_ci_port_spec : forall e sc, uri_ci_port e sc = match uri_port e sc with Some p => p | None => 0 end.
+Proof. reflexivity. Qed.
